@@ -400,6 +400,9 @@ def _wrap(klass, meth, cls):
             lg.depth = 0
             trades = [t for t in treedrv.TRADELOG[t0:] if t[0] in lg.index]
             op = _opdict(sess, lg, cls, meth, self, a, k)
+            if op is not None and (op.get("node", 1) == 0 or (op["op"] in ("rebalance", "close") and op.get("child", 1) == 0)):
+                lg.dead = True  # a node the header does not know (created behind the recorder's back): stop here
+                op = None
             if op is not None:
                 saved = list(treedrv.TRADELOG)
                 ev = lg.rec.finish_event(op, exc, trades=trades)
